@@ -431,7 +431,7 @@ def class_scenarios(rng, count):
 def iteration_scenarios(rng, count):
     out = []
     sources = ["vec0", "vec1", "vec3", "tuple0", "tuple2", "range-up", "range-down", "range-empty", "user", "user-early", "user-derived",
-               "iter-of-vec", "nested-vec"]
+               "iter-of-vec", "nested-vec", "user-derived-fresh", "user-derived-fresh"]
     for k in range(count):
         b = Builder()
         # user-defined iterables
@@ -447,6 +447,10 @@ def iteration_scenarios(rng, count):
         b.method("next", [])
         b.if_(bin_(">=", get(b.v("self"), "i"), lit(6))); b.ret(inv(b.v("StopIter"), "new")); b.end()
         b.expr(setf(b.v("self"), "i", bin_("+", get(b.v("self"), "i"), lit(2)))); b.ret(get(b.v("self"), "i")); b.end()
+        b.end()
+        # an iterable deriving Iter whose iter() hands out a separate, fresh iterator (it has no next() itself)
+        b.class_("Bag", sup="Iter", ctor="new")
+        b.method("iter", []); b.ret(inv(b.v("Count"), "upto", lit(3))); b.end()
         b.end()
         wrap_fn = rng.random() < 0.5
         if wrap_fn:
@@ -465,15 +469,16 @@ def iteration_scenarios(rng, count):
             if src == "user": return inv(b.v("Count"), "upto", lit(3))
             if src == "user-early": return inv(b.v("Count"), "upto", lit(0))
             if src == "user-derived": return inv(b.v("Evens"), "start")
+            if src == "user-derived-fresh": return inv(b.v("Bag"), "new")
             if src == "iter-of-vec": return inv(vec(lit(5), lit(6)), "iter")
             return vec(vec(lit(1)), vec(), vec(lit(2), lit(3)))
         rng_ = lambda a, c: {"k": "range", "l": lit(a), "r": lit(c)}
         b.var("src", source())
-        numeric = src in ("vec3", "range-up", "range-down", "range-empty", "user", "user-early", "user-derived", "iter-of-vec")
+        numeric = src in ("vec3", "range-up", "range-down", "range-empty", "user", "user-early", "user-derived", "iter-of-vec", "user-derived-fresh")
         chainable = src not in ("user", "user-early")        # plain user classes do not derive Iter
         nchain = rng.randint(0, 3) if chainable else 0
         e = b.v("src")
-        if nchain and src not in ("user-derived", "iter-of-vec"):
+        if nchain and src not in ("user-derived", "iter-of-vec", "user-derived-fresh"):
             e = inv(e, "iter")
         for c in range(nchain):
             which = rng.choice(["map", "filter", "map-id"])
@@ -485,7 +490,7 @@ def iteration_scenarios(rng, count):
                 e = inv(e, "filter", b.lam(["x"], lambda: (bin_("!=", b.v("x"), lit(2 + 2 * c)) if numeric else lit(c % 2 == 0))))
         consumer = rng.choice(["for", "for", "for-break", "for-continue", "for-return", "collect", "reduce", "nested", "interleaved", "mutate", "manual-next",
                                "range-held"])
-        if consumer in ("collect", "reduce") and not (nchain or src in ("user-derived", "iter-of-vec")):
+        if consumer in ("collect", "reduce") and not (nchain or src in ("user-derived", "iter-of-vec", "user-derived-fresh")):
             consumer = "for"
         if consumer == "for":
             b.for_("v", e); b.print(b.v("v")); b.end()
@@ -866,6 +871,13 @@ def hashmap_scenarios(rng, count, exhaustive_pairs=True):
                 b = Builder()
                 emit(b, [("insert", a, a), ("has_key", c, c), ("get", c, c), ("insert", c, c), ("len", a, a), ("remove", c, c), ("has_key", a, a), ("items", a, a)])
                 out.append(("map2:%s|%s" % (a, c), b.toks))
+        # every sequence of 4 operations on one key (history-sensitive behaviour: caches, tombstones)
+        import itertools
+        for kn in ("one", "tuple", "str-built"):
+            for seq in itertools.product(["insert", "remove", "get", "has_key", "clear"], repeat=4):
+                b = Builder()
+                emit(b, [("insert", kn, kn)] + [(op, kn, kn) for op in seq] + [("len", kn, kn)])
+                out.append(("map4:%s:%s" % (kn, "-".join(seq)), b.toks))
     for k in range(count):
         b = Builder()
         plan = [(rng.choice(ops), rng.choice(names), rng.choice(names)) for _ in range(rng.randint(2, 7))]
